@@ -28,12 +28,33 @@ def run_group(group, repo, workdir, tier):
         shutil.copy(lock, os.path.join(crate, 'Cargo.lock'))
     with open(os.path.join(crate, 'src', 'lib.rs')) as f:
         text = f.read()
-    harness_obs = {}
+    pieces = []
+    if '//@@ ' in text:
+        # functions of /repo are extracted into the crate on every run, by the same extractor as the Verus units
+        from . import template
+        from .extract import LostAnchor
+        try:
+            gen = template.generate(repo, text, None)
+        except (LostAnchor, template.TemplateError, Exception) as e:  # noqa
+            res.status = 'tooling'
+            res.tooling.append(f'extraction failed: {type(e).__name__}: {e}')
+            for ob in sorted(set(re.findall(r'OB:([\w.\-]+)', text))):
+                if not ob.startswith('canary.'):
+                    res.obligations[ob] = {'status': 'undecided', 'msg': str(e), 'fn': '', 'line': 0, 'contract': ''}
+            res.wall_s = time.time() - t0
+            return res
+        text = gen.text()
+        pieces = gen.pieces
+        with open(os.path.join(crate, 'src', 'lib.rs'), 'w') as f:
+            f.write(text)
+    harness_obs, contract_harness = {}, set()
     for m in re.finditer(r'fn (\w+)\(\)\s*\{(.*?)\n\}', text, flags=re.S):
-        obs = re.findall(r'"OB:([\w.\-]+)', m.group(2))
+        obs = re.findall(r'OB:([\w.\-]+)', m.group(2))
         if obs:
             harness_obs[m.group(1)] = sorted(set(obs))
-    cmd = ['cargo', 'kani', '--default-unwind', '20']
+            if re.search(r'//\s*OB:', m.group(2)):
+                contract_harness.add(m.group(1))     # proof_for_contract harness: any failed check is the contract's obligation
+    cmd = ['cargo', 'kani', '--default-unwind', '40', '-Z', 'function-contracts']
     res.cmd = 'CARGO_NET_OFFLINE=true ' + ' '.join(cmd) + f'  (in units/kani/{group}, Cargo.lock of /repo)'
     env = dict(os.environ, CARGO_NET_OFFLINE='true')
     try:
@@ -61,9 +82,9 @@ def run_group(group, repo, workdir, tier):
             cur = res.obligations.setdefault(ob, {'status': 'discharged', 'msg': '', 'fn': name, 'line': 0, 'time_ms': ms,
                                                   'contract': f'kani harness {name} (complete: loop-free, all inputs symbolic)'})
             if not ok:
-                if ob in failed_obs:
+                if ob in failed_obs or (name in contract_harness and 'VERIFICATION:- FAILED' in b):
                     cur['status'] = 'failed'
-                    cur['msg'] = f'kani: check failed in harness {name}'
+                    cur['msg'] = f'kani: check failed in harness {name}: ' + '; '.join(re.findall(r'Failed Checks: ([^\n]+)', b))[:300]
                     cur['rendered'] = b[-3000:]
                 elif not failed_obs:
                     cur['status'] = 'undecided'
@@ -80,7 +101,7 @@ def run_group(group, repo, workdir, tier):
             res.tooling.append(f'kani canary {c} did not fail')
     if res.tooling:
         res.status = 'tooling'
-    res.pieces = [{'label': f'scru128 crate (registry, version pinned by /repo/Cargo.lock)', 'file': 'Cargo.lock', 'kind': 'dependency',
+    res.pieces = list(pieces) + [{'label': f'scru128 crate (registry, version pinned by /repo/Cargo.lock)', 'file': 'Cargo.lock', 'kind': 'dependency',
                    'lines': [0, 0], 'tokens': 0, 'edits': {}}]
     return res
 
